@@ -69,13 +69,17 @@ def run_case(rec, k):
             w = np.array([float(x) for x in RHS_VALS[k % 3]])
         else:
             w = np.array([float(x) for x in RHS_VALS[k % 3]]) * osyris.units(UNITSTR[ru])
+        if c["op"] in ("lt", "le", "gt", "ge", "eq", "ne") and (c["lu"] + c["nl"]) % 2 == 0:
+            # an undefined value in a component: the lifted comparison answers like the Array comparison (False; True for !=)
+            comps_of(v)[0]._array[0] = np.nan
+            vvals[0][0] = None
         before = [cc._array.copy() for cc in comps_of(v)]
         try:
             res = BIN[c["op"]](v, w)
             raised = None
         except Exception as e:
             raised = e
-        if any(not np.array_equal(b, cc._array) for b, cc in zip(before, comps_of(v))):
+        if any(not np.array_equal(b, cc._array, equal_nan=True) for b, cc in zip(before, comps_of(v))):
             return "mismatch", "the left Vector was modified"
         if o["raises"]:
             if raised is None:
@@ -99,6 +103,10 @@ def run_case(rec, k):
             rv = wvals[i] if rk == "vec" else ([F(2)] * 2 if rk == "int" else [F(1, 2)] * 2 if rk == "float" else [F(w.item()).limit_denominator(4)] * 2 if rk == "npnum" else list(RHS_VALS[k % 3]))
             tol = 64 * EPS["f8"] + (unit_tol(lu, ru) if o.get("converted") else 0)
             for j, (l, r) in enumerate(zip(vvals[i], rv)):
+                if l is None:
+                    if bool(np.atleast_1d(rc._array)[j]) != (c["op"] == "ne"):
+                        return "mismatch", f"component {'xyz'[i]} row {j}: an undefined value compares {bool(np.atleast_1d(rc._array)[j])} under {c['op']}"
+                    continue
                 e = exact_bin(c["op"], l, r * conv)
                 g = np.atleast_1d(rc._array)[j]
                 if o.get("bool"):
@@ -110,6 +118,10 @@ def run_case(rec, k):
     if c["fam"] == "vun":
         v, vvals = mkvec(c["nl"], lu, COMP_VALS, k)
         op = c["op"]
+        if op in ("rdiv2", "rmul2", "neg", "pow2") and c["lu"] % 2 == 1:
+            # integer components: number / v is the true quotient, as for each component Array
+            ints = [[3, -4], [1, 12], [5, 2]]
+            v = V(*[np.array(ints[(i + k) % 3], dtype=np.int64 if k % 2 else np.int32) for i in range(c["nl"])], unit=UNITSTR[lu])
         cs = comps_of(v)
         try:
             if op == "neg":
